@@ -4,7 +4,9 @@ Host half : the real Reduino.Displays.LCD object (animate + tick(now)) against c
 Device half: generated scripts with lcd.animate(...) before `while True:`, transpiled by the real
 parse+emit, compiled against the mock core and run with a scripted millis() per pass, against
 coq/Device/DLCDAnim.v.  Independently of the models a property oracle is evaluated on every real
-trace (no delay, geometry, termination bound, looping never ends, rate limit, one step per due tick)."""
+trace (no delay, geometry, termination bound, looping never ends, rate limit, one step per due tick), for every
+animation that has its row to itself, on schedules that contain late passes followed by quick ones.  The oracle's notion
+of a due tick is cross-checked against the extracted specification schedule due_flags (C18_step_schedule_*)."""
 from __future__ import annotations
 
 import re
@@ -24,7 +26,8 @@ STYLES = ["scroll", "blink", "typewriter", "bounce"]
 CODE = {s: i for i, s in enumerate(STYLES)}
 COLS = [1, 2, 3, 8, 16, 20, 40]
 SPEEDS = [0, 1, 100]
-KINDS = ["ontime", "early", "late", "equal"]
+KINDS = ["ontime", "early", "late", "equal", "burst"]
+BIG_CLOCK = 2147483000        # a run started here crosses 2^31 ms (signed 32-bit arithmetic on millis() goes wrong)
 ALPHA = "ABCDEFGHIJKLMNOPQRSTUVWXYZabcdefghijklmnopqrstuvwxyz0123456789"
 
 
@@ -67,6 +70,19 @@ def ideal_due(times, speed):
     return out
 
 
+def burst_pattern(unit):
+    """increments of a schedule in which LATE passes (gap 2*unit .. 5*unit+7) are followed by several QUICK passes
+    (gaps 0, 1, unit/4 ... summing to less than unit) and then by a pass that is exactly on time again: a rate
+    limiter that measures from anything but the latest step itself (catching up after a late pass, measuring from
+    the latest tick instead of the latest step) steps too often / too rarely somewhere on it"""
+    q = unit // 4
+    return [unit,
+            3 * unit + unit // 2, 1, 0, q, q, max(0, unit - 2 - 2 * q), 1,        # late, 6 early passes, exactly on time
+            5 * unit + 7, 0, max(0, unit - 1), 1,                                  # late, same ms, last early ms, on time
+            2 * unit, unit // 2, unit - unit // 2,                                 # exactly two periods late, half, on time
+            unit + 1, max(0, unit - 2), 1, 1]                                      # a bit late, early, early/on time
+
+
 def tick_times(kind, speed, n_due, rng, start=None, cap=1200):
     unit = speed if speed > 0 else 1
     pats = {
@@ -74,14 +90,16 @@ def tick_times(kind, speed, n_due, rng, start=None, cap=1200):
         "early": [unit - 1, 1, unit // 2, unit - unit // 2, unit],
         "late": [unit + 1, 2 * unit, unit + unit // 2 + 1, 3 * unit + 7],
         "equal": [unit, 0, 0, unit, 0],
+        "burst": burst_pattern(unit),
         "mixed": None,
     }
-    t = start if start is not None else rng.choice([1, 7, 1000])
+    t = start if start is not None else rng.choice([1, 7, 1000, 1000, BIG_CLOCK])
     times = [t]
     i = 0
     while sum(ideal_due(times, speed)) < n_due and len(times) < cap:
         pat = pats[kind]
-        inc = pat[i % len(pat)] if pat else rng.choice([0, 1, max(0, unit - 1), unit, unit + 1, 2 * unit, unit // 2])
+        inc = pat[i % len(pat)] if pat else rng.choice([0, 0, 1, 1, max(0, unit - 1), unit, unit + 1, 2 * unit, unit // 2,
+                                                        3 * unit + 1, 7 * unit + 3])
         i += 1
         t += inc
         times.append(t)
@@ -183,6 +201,14 @@ def host_compare(ctx, c, m, r):
             return
 
 
+def hcut(c, k):
+    """the host case with its tick history cut after tick k (prefix-determined)"""
+    c2 = dict(c)
+    c2["nows"] = list(c["nows"][:k + 1])
+    c2["cut_from"] = len(c["nows"])
+    return c2
+
+
 def host_oracle(ctx, c, r, stats):
     """the property's relations evaluated on the real object (cases inside the guard only)"""
     cols, rows = c["cols"], c["rows"]
@@ -251,7 +277,11 @@ def host_oracle(ctx, c, r, stats):
         for i in range(n):
             sp, sc = prev["states"][i], cur["states"][i]
             style, row, text, speed, loop = sp[0], sp[1], sp[2], sp[3], sp[4]
+            row_events = [ev for ev in rt["events"] if ev[0] == row]
+            # a step shows as a state change or as an assignment to the animation's row (a row shared with another
+            # animation: the assignment may be the other one's - then the due-skipped relation is not judged)
             stepped = sp != sc or (n == 1 and bool(rt["events"]))
+            maybe_stepped = stepped or bool(row_events)
             was_active = sp[7]
             if stepped and not was_active:
                 ctx.fail("an inactive animation changed", c, sp, sc, key="host-inactive-step")
@@ -262,7 +292,8 @@ def host_oracle(ctx, c, r, stats):
             if stepped:
                 for t1 in steps[i]:
                     if 0 < t1 and now - t1 < speed:
-                        ctx.fail("two steps closer than speed_ms", c, f">= {speed}", [t1, now], key="host-rate-limit")
+                        ctx.fail("two steps closer than speed_ms" + (f" (animation #{i} of {n})" if n > 1 else ""), hcut(c, k), f"consecutive steps >= {speed} ms apart",
+                                 {"steps_at": [t1, now], "apart_ms": now - t1, "all_steps": steps[i] + [now]}, key="host-rate-limit")
                         return
                 steps[i].append(now)
                 nsteps_seen[i] += 1
@@ -277,8 +308,9 @@ def host_oracle(ctx, c, r, stats):
             else:
                 last = steps[i][-1] if steps[i] else 0
                 due = was_active and (speed <= 0 or last <= 0 or now - last >= speed)
-                if due and n == 1:
-                    ctx.fail("a due tick (not early) did not advance an active animation", c, "step", [sp, now], key="host-due-skipped")
+                if due and (n == 1 or not maybe_stepped):
+                    ctx.fail("a due tick (not early) did not advance an active animation" + (f" (animation #{i} of {n})" if n > 1 else ""),
+                             hcut(c, k), "step", [sp, now], key="host-due-skipped")
                     return
         prev = cur
     for i in range(n):
@@ -302,14 +334,15 @@ def gen_host_cases(ctx):
                         for kind in KINDS:
                             grid.append((style, cols, n, loop, speed, kind))
     def two_picks(full):
-        # every (style, cols, len, loop) twice, speed x kind rotating so that all 12 pairs occur for every style
+        # every (style, cols, len, loop) twice, speed x kind rotating so that all 15 pairs occur for every style
+        # (7 is coprime to the 15 pairs of a cell)
         keep = []
         by = {}
         for g in full:
             by.setdefault(g[:4], []).append(g)
         for j, (k4, lst) in enumerate(sorted(by.items())):
-            keep.append(lst[(j * 5) % len(lst)])
-            keep.append(lst[(j * 5 + 7) % len(lst)])
+            keep.append(lst[(j * 7) % len(lst)])
+            keep.append(lst[(j * 7 + 4) % len(lst)])
         return keep
     if not thorough:
         grid = two_picks(grid)
@@ -337,27 +370,28 @@ def gen_host_cases(ctx):
         cases.append({"cols": cols, "rows": rows, "i2c": j % 2 == 1, "anims": [[style, row, text, speed, loop]],
                       "nows": nows, "tick_kw": j % 5 == 0, "tag": f"grid:{kind}"})
     # speeds outside the boundary set, negative speeds (host clamps to 0), spaced / non-ASCII texts, mixed schedules
-    extra_texts = ["", "a", "Hi there", "héllo wörld ✓", "漢字かな", "  lead", "x" * 45]
+    extra_texts = ["", "a", "   ", "Hi there", "héllo wörld ✓", "漢字かな", "  lead", "x" * 45]
     for j in range(120 if thorough else 40):
         style = STYLES[j % 4]
         cols = rng.choice(COLS + [5, 7, 39])
         rows = rng.choice([1, 2, 4])
-        speed = rng.choice([-5, 0, 1, 2, 3, 50, 100, 250])
+        speed = rng.choice([-5, 0, 1, 2, 3, 50, 100, 250, 1000, 70000])
         loop = rng.random() < 0.5
         text = rng.choice(extra_texts) if rng.random() < 0.5 else mk_text(rng.randint(0, 2 * cols + 1), salt=j, spaced=True)
-        nows = tick_times("mixed", max(speed, 0), min(bound(len(text), cols) + 2, 70), rng, cap=400)
+        nows = tick_times(["mixed", "burst"][j // 4 % 2], max(speed, 0), min(bound(len(text), cols) + 2, 70), rng, cap=400)
         cases.append({"cols": cols, "rows": rows, "i2c": False, "anims": [[style, rng.randrange(rows), text, speed, loop]],
                       "nows": nows, "tag": "random"})
     # several animations on one display (distinct rows, shared rows), invalid styles / rows mixed in
     for j in range(80 if thorough else 30):
         cols = rng.choice([2, 3, 8, 16])
         rows = rng.choice([1, 2, 4])
+        unit = rng.choice([1, 3, 100])
         anims = []
         for _ in range(rng.randint(2, 4)):
             st = rng.choice(STYLES + (["SCROLL", "Blink", "wave"] if rng.random() < 0.2 else []))
             row = rng.randrange(rows) if rng.random() < 0.85 else rng.choice([-1, rows, rows + 3])
-            anims.append([st, row, mk_text(rng.choice(len_classes(cols)), salt=j + len(anims)), rng.choice([0, 1, 3, 100, -2]), rng.random() < 0.5])
-        nows = tick_times("mixed", rng.choice([1, 3, 100]), 40, rng, cap=200)
+            anims.append([st, row, mk_text(rng.choice(len_classes(cols)), salt=j + len(anims)), rng.choice([0, unit, unit, 1, 3, 100, -2]), rng.random() < 0.5])
+        nows = tick_times(["mixed", "burst"][j % 2], unit, 40, rng, cap=200)
         cases.append({"cols": cols, "rows": rows, "i2c": False, "anims": anims, "nows": nows, "tag": "multi"})
     # geometry rejected by the constructor; tick with now = 0 (tick() without argument)
     cases.append({"cols": 0, "rows": 2, "i2c": False, "anims": [], "nows": [], "tag": "bad-geometry"})
@@ -419,7 +453,11 @@ def animate_call(name, a, variant):
     return f'{name}.animate("{style}", {row}, {py_str(text)}, speed_ms={speed}, loop={loop})'
 
 
-def device_script(lcds, loop_lines=None, runtime_speed=False):
+BUSY_PRE = ["k = 0"]
+BUSY_LOOP = ["k = k + 1", "if k > 3:", "    k = 0", "for q in range(2):", "    k = k + 0"]
+
+
+def device_script(lcds, loop_lines=None, runtime_speed=False, pre_lines=None):
     """lcds: [{"name","cols","rows","i2c","anims":[[style,row,text,speed,loop]...]}]"""
     L = ["from Reduino import target", "from Reduino.Displays import LCD", "from Reduino.Core import analog_read",
          'target("/dev/ttyUSB0")']
@@ -439,6 +477,7 @@ def device_script(lcds, loop_lines=None, runtime_speed=False):
             else:
                 L.append(animate_call(d["name"], a, j % 4))
             j += 1
+    L += list(pre_lines or [])
     L.append("while True:")
     L += ["    " + x for x in (loop_lines or ["pass"])]
     return "\n".join(L) + "\n"
@@ -515,6 +554,14 @@ def device_compare(ctx, case, m, setup, passes, lid):
             return
 
 
+def cut(case, k):
+    """the case with its schedule cut after pass k: runs are prefix-determined, so the shorter case fails the same way"""
+    c = dict(case)
+    c["nows"] = list(case["nows"][:k + 1])
+    c["cut_from"] = len(case["nows"])
+    return c
+
+
 def device_oracle(ctx, case, setup, passes, lid, stats):
     d = case["lcd"]
     cols, rows, anims, nows = d["cols"], d["rows"], d["anims"], case["nows"]
@@ -532,9 +579,26 @@ def device_oracle(ctx, case, setup, passes, lid, stats):
             if r not in anim_rows and row_txt.strip():
                 ctx.fail(f"device {label}: a row without animation is not blank", case, "blank", row_txt, key="dev-other-row")
                 return
-    if len(anims) != 1:
-        return
-    style, row, text, speed, loop = anims[0]
+    # per-animation relations: every animation that has its row to itself (its steps are then exactly the passes
+    # that write cells of that row).  Animations sharing a row are covered by the global relations above only.
+    row_use = {}
+    for a in anims:
+        row_use[a[1]] = row_use.get(a[1], 0) + 1
+    for ai, a in enumerate(anims):
+        if row_use[a[1]] == 1:
+            if not device_oracle_one(ctx, case, a, ai, setup, passes, lid, stats):
+                return
+        else:
+            stats["dev_shared_row_animations"] = stats.get("dev_shared_row_animations", 0) + 1
+
+
+def device_oracle_one(ctx, case, anim, ai, setup, passes, lid, stats):
+    """the property's per-animation relations on the firmware trace; False = a failure was reported"""
+    d = case["lcd"]
+    cols, nows = d["cols"], case["nows"]
+    single = len(d["anims"]) == 1
+    style, row, text, speed, loop = anim
+    who = "" if single else f" (animation #{ai}: {style} on row {row}, speed_ms={speed}, loop={loop})"
     text = text.encode("utf-8").decode("latin-1")      # one character per byte = per cell written
     B = bound(len(text), cols)
     steps = []
@@ -542,9 +606,10 @@ def device_oracle(ctx, case, setup, passes, lid, stats):
     prev_row = setup["ld"][lid][row]
     due_count = 0
     last_ideal = 0
+    ended_at = None         # non-looping: the first pass that was due (w.r.t. the observed steps) and drew nothing
     for k, ph in enumerate(passes):
         now = nows[k]
-        w = ph["lw"].get(lid, [])
+        w = [x for x in ph["lw"].get(lid, []) if x[0] == row]
         cur_row = ph["ld"][lid][row]
         ideal = speed <= 0 or last_ideal <= 0 or now - last_ideal >= speed
         if ideal:
@@ -553,46 +618,61 @@ def device_oracle(ctx, case, setup, passes, lid, stats):
         if w:
             colset = {c_ for (_, c_, _) in w}
             if colset != set(range(cols)):
-                ctx.fail("device: a frame did not rewrite exactly the display width", case, f"columns 0..{cols - 1}", sorted(colset), key="dev-frame-width")
-                return
+                ctx.fail("device: a frame did not rewrite exactly the display width" + who, cut(case, k), f"columns 0..{cols - 1}", sorted(colset), key="dev-frame-width")
+                return False
             for t1 in steps:
                 if 0 < t1 and now - t1 < speed:
-                    ctx.fail("device: two steps closer than speed_ms", case, f">= {speed}", [t1, now], key="dev-rate-limit")
-                    return
+                    ctx.fail("device: two steps closer than speed_ms" + who, cut(case, k), f"consecutive steps >= {speed} ms apart",
+                             {"steps_at": [t1, now], "apart_ms": now - t1, "all_steps": steps + [now]}, key="dev-rate-limit")
+                    return False
+            if not loop and ended_at is not None:
+                ctx.fail("device: a non-looping animation let a due pass go by without a frame (so it had ended, or the pass was wrongly skipped) and drew a frame again later" + who,
+                         cut(case, k), "no frame after the skipped due pass", {"skipped_due_pass_at": nows[ended_at], "frame_again_at": now, "steps_before": steps}, key="dev-due-skipped")
+                return False
             steps.append(now)
             nsteps += 1
             if not loop and nsteps > B:
-                ctx.fail("device: non-looping animation still stepping after len+2*cols+2 steps", case, B, nsteps, key="dev-termination")
-                return
+                ctx.fail("device: non-looping animation still stepping after len+2*cols+2 steps" + who, cut(case, k), B, nsteps, key="dev-termination")
+                return False
             ok = step_relation_ok(style, text, cols, prev_row, cur_row, nsteps)
             if ok is False:
-                ctx.fail("device: a pass did not advance the animation by exactly one frame (one tick per pass)", case, prev_row, cur_row, key="dev-one-step")
-                return
+                ctx.fail("device: a pass did not advance the animation by exactly one frame (one tick per pass)" + who, cut(case, k), prev_row, cur_row, key="dev-one-step")
+                return False
             per_col = {}
             for (_, c_, _) in w:
                 per_col[c_] = per_col.get(c_, 0) + 1
             if max(per_col.values()) > 2:
-                ctx.fail("device: a cell was written more than twice in one pass (more than one tick per pass)", case, "<= 2 writes per cell", per_col, key="dev-one-step")
-                return
+                ctx.fail("device: a cell was written more than twice in one pass (more than one tick per pass)" + who, cut(case, k), "<= 2 writes per cell", per_col, key="dev-one-step")
+                return False
         else:
             if speed < 0:
                 pass    # cast to unsigned long: a huge period; after the first step with the clock running none is due
             elif loop:
                 last = steps[-1] if steps else 0
                 if speed <= 0 or last <= 0 or now - last >= speed:
-                    ctx.fail("device: a due tick (not early) did not advance a looping animation", case, "a frame", f"pass {k} millis={now} last step {last}", key="dev-due-skipped")
-                    return
-            elif due_count <= 1 and nsteps == 0 and not (style == "typewriter" and len(text) == 1):
-                ctx.fail("device: the first due tick did not advance the animation", case, "a frame", f"pass {k} millis={now}", key="dev-due-skipped")
-                return
+                    ctx.fail("device: a due tick (not early) did not advance a looping animation" + who, cut(case, k), "a frame", f"pass {k} millis={now} last step {last}", key="dev-due-skipped")
+                    return False
+            elif not loop and ended_at is None and (speed <= 0 or not steps or steps[-1] <= 0 or now - steps[-1] >= speed):
+                ended_at = k
+            if speed >= 0 and not loop and due_count <= 1 and nsteps == 0 and not (style == "typewriter" and len(text) == 1):
+                ctx.fail("device: the first due tick did not advance the animation" + who, cut(case, k), "a frame", f"pass {k} millis={now}", key="dev-due-skipped")
+                return False
             if cur_row != prev_row:
-                ctx.fail("device: row changed in a pass without cell writes", case, prev_row, cur_row, key="dev-geometry")
-                return
+                ctx.fail("device: row changed in a pass without cell writes" + who, cut(case, k), prev_row, cur_row, key="dev-geometry")
+                return False
         if not loop and due_count > B + 1 and w:
-            ctx.fail("device: non-looping animation still active after more than len+2*cols+2 due ticks", case, "no more frames", f"pass {k}", key="dev-termination")
-            return
+            ctx.fail("device: non-looping animation still active after more than len+2*cols+2 due ticks" + who, cut(case, k), "no more frames", f"pass {k}", key="dev-termination")
+            return False
         prev_row = cur_row
     stats["dev_steps"] = stats.get("dev_steps", 0) + nsteps
+    stats["dev_animations_judged"] = stats.get("dev_animations_judged", 0) + 1
+    late_then_early = 0
+    for k in range(1, len(nows) - 1):
+        if speed > 0 and nows[k] - nows[k - 1] > 2 * speed and nows[k + 1] - nows[k] < speed:
+            late_then_early += 1
+    if late_then_early:
+        stats["dev_animations_with_late_then_early_pass"] = stats.get("dev_animations_with_late_then_early_pass", 0) + 1
+    return True
 
 
 def gen_device_groups(ctx):
@@ -606,12 +686,24 @@ def gen_device_groups(ctx):
             for n in len_classes(cols):
                 for loop in (False, True):
                     combos = [(s, k) for s in SPEEDS for k in KINDS]
-                    picks = combos if thorough else [combos[(j * 5) % 12]]
+                    picks = combos if thorough else [combos[(j * 7) % len(combos)]]
                     for (speed, kind) in picks:
                         rows = [1, 2, 4][j % 3] if cols <= 20 else [1, 2][j % 2]
                         singles.append({"style": style, "cols": cols, "n": n, "loop": loop, "speed": speed, "kind": kind,
                                         "rows": rows, "row": (j // 3) % rows, "i2c": j % 2 == 1, "salt": j})
                     j += 1
+    # thorough: widths between the boundary ones, one rotating speed/schedule pick per cell
+    if thorough:
+        for style in STYLES:
+            for cols in [4, 5, 6, 7, 10, 12, 15, 24, 32, 39]:
+                for n in len_classes(cols):
+                    for loop in (False, True):
+                        combos = [(s, k) for s in SPEEDS for k in KINDS]
+                        speed, kind = combos[(j * 7) % len(combos)]
+                        rows = [1, 2, 4][j % 3] if cols <= 20 else [1, 2][j % 2]
+                        singles.append({"style": style, "cols": cols, "n": n, "loop": loop, "speed": speed, "kind": kind,
+                                        "rows": rows, "row": (j // 3) % rows, "i2c": j % 2 == 1, "salt": j})
+                        j += 1
     # negative speed_ms (the emitted call casts it to unsigned long): every style x loop on three geometries
     for style in STYLES:
         for (cols, n) in ((2, 3), (8, 3), (16, 20)):
@@ -624,8 +716,18 @@ def gen_device_groups(ctx):
         for style in STYLES:
             cols = [3, 8, 16, 5][(q + j) % 4]
             singles.append({"style": style, "cols": cols, "n": len(txt.encode("utf-8")), "loop": (q + j) % 2 == 0, "speed": [0, 1, 100][j % 3],
-                            "kind": KINDS[j % 4], "rows": 2, "row": j % 2, "i2c": j % 2 == 1, "salt": j, "text": txt})
+                            "kind": KINDS[j % len(KINDS)], "rows": 2, "row": j % 2, "i2c": j % 2 == 1, "salt": j, "text": txt})
             j += 1
+    # speeds outside {0, 1, 100}: small odd ones, a second-scale one, and periods above 2^15 / 2^16 ms (a 16-bit
+    # speed field would wrap): every style x loop on small displays, on burst (quick) and also mixed (thorough) schedules
+    for q, speed in enumerate([7, 1000, 70000] if not thorough else [2, 7, 1000, 40000, 70000]):
+        for kind in (["burst"] if not thorough else ["burst", "mixed"]):
+            for style in STYLES:
+                for loop in (False, True):
+                    cols, n = [(3, 2), (8, 11), (5, 5)][(q + j) % 3]
+                    singles.append({"style": style, "cols": cols, "n": n, "loop": loop, "speed": speed, "kind": kind,
+                                    "rows": 2, "row": j % 2, "i2c": j % 2 == 1, "salt": j})
+                    j += 1
     groups = {}
     for s in singles:
         cls = "S" if s["cols"] <= 8 else "L"
@@ -645,29 +747,40 @@ def gen_device_groups(ctx):
                 if s["loop"]:
                     nd = min(nd, s["n"] + 3 * s["cols"] + 4, 70 if not thorough else 170)
                 need = max(need, nd)
-            nows = tick_times(kind, speed, need, rng, cap=700)
+            # the clock at the first pass rotates over small values and one just below 2^31 ms (the run crosses it)
+            start = [1, 7, 1000, BIG_CLOCK][len(sketches) % 4]
+            nows = tick_times(kind, speed, need, rng, start=start, cap=700)
             sketches.append({"lcds": lcds, "nows": nows, "runtime_speed": False, "tag": f"grid:{speed}:{kind}:{cls}"})
     # several animations on one display and on two displays, mixed speeds, shared rows; some with run-time speed/row
-    for j in range(10 if thorough else 4):
+    for j in range(12 if thorough else 4):
         lcds = []
         rt = (j % 2 == 1)
-        base_speed = rng.choice([1, 100]) if rt else None
+        unit = rng.choice([1, 3, 100])
+        kind = ["mixed", "burst"][(j // 2) % 2]
+        base_speed = (unit if unit != 3 else 100) if rt else None
         for q in range(6):
             cols = rng.choice([2, 3, 8, 16, 20])
             rows = rng.choice([1, 2, 4])
             anims = []
+            free_rows = list(range(rows))
+            rng.shuffle(free_rows)
             for _ in range(rng.randint(1, 3)):
-                anims.append([rng.choice(STYLES), rng.randrange(rows), mk_text(rng.choice(len_classes(cols)), salt=j + q + len(anims), spaced=rng.random() < 0.3),
-                              base_speed if rt else rng.choice([0, 1, 3, 100, -3]), rng.random() < 0.5])
+                # mostly a row of its own (the per-animation relations are then judged), sometimes a shared one
+                row = free_rows.pop() if free_rows and rng.random() < 0.8 else rng.randrange(rows)
+                anims.append([rng.choice(STYLES), row, mk_text(rng.choice(len_classes(cols)), salt=j + q + len(anims), spaced=rng.random() < 0.3),
+                              base_speed if rt else rng.choice([0, unit, unit, 1, 3, 100, -3]), rng.random() < 0.5])
             lcds.append({"name": f"m{q:02d}", "cols": cols, "rows": rows, "i2c": rng.random() < 0.5, "anims": anims})
-        nows = tick_times("mixed", rng.choice([1, 3, 100]), 60, rng, cap=250)
-        sketches.append({"lcds": lcds, "nows": nows, "runtime_speed": base_speed if rt else False, "tag": "multi-rt" if rt else "multi"})
+        nows = tick_times(kind, base_speed if rt else unit, 60, rng, cap=250)
+        # half of them with a main loop that does other (non-sleeping) work: the ticks must still come once per pass
+        sketches.append({"lcds": lcds, "nows": nows, "runtime_speed": base_speed if rt else False, "busy": j % 4 in (0, 3),
+                         "tag": ("multi-rt:" if rt else "multi:") + kind + (":busy-loop" if j % 4 in (0, 3) else "")})
     return sketches
 
 
 def run_device(ctx, stats):
     sketches = gen_device_groups(ctx)
-    srcs = [device_script(s["lcds"], runtime_speed=s["runtime_speed"]) for s in sketches]
+    srcs = [device_script(s["lcds"], runtime_speed=s["runtime_speed"], pre_lines=BUSY_PRE if s.get("busy") else None,
+                          loop_lines=BUSY_LOOP if s.get("busy") else None) for s in sketches]
     tr = fw.transpile_many(srcs)
     jobs, live = [], []
     for s, src, t in zip(sketches, srcs, tr):
@@ -708,7 +821,8 @@ def run_device(ctx, stats):
             if d["name"] not in ids:
                 ctx.disagree("device: LCD object not found among the emitted globals", {"script": src}, d["name"], order)
                 continue
-            case = {"lcd": d, "nows": s["nows"], "tag": s["tag"], "script_head": src.splitlines()[4:6]}
+            case = {"lcd": d, "nows": s["nows"], "tag": s["tag"], "script_head": src.splitlines()[4:6],
+                    "runtime_speed": s["runtime_speed"], "busy": bool(s.get("busy"))}
             model_cases.append(device_model_case(d, s["nows"]))
             index.append((case, len(parsed) - 1))
     model = ctx.model(model_cases) if (ctx.exe and model_cases) else [None] * len(model_cases)
@@ -821,6 +935,38 @@ def run_injection(ctx, stats):
         stats["injection_modes"][mode] = stats["injection_modes"].get(mode, 0) + 1
 
 
+def run_schedule_spec(ctx, stats, hcases, dindex):
+    """the oracle's own notion of a due tick ([ideal_due], used by the rate-limit / due-skipped relations) against the
+    extracted specification schedule [due_flags] of coq/Host/LCDAnim.v, which C18_step_schedule_device/_host prove to
+    be the model's step flags: on every (speed, schedule) pair the generators produced"""
+    if not ctx.exe:
+        return
+    seen, cases = set(), []
+    def add(speed, nows):
+        key = (speed, tuple(nows))
+        if key not in seen and all(t > 0 for t in nows):
+            seen.add(key)
+            cases.append((speed, list(nows)))
+    for c in hcases:
+        for a in c["anims"]:
+            add(max(int(a[3]), 0), c["nows"])
+    for case, _ in dindex:
+        for a in case["lcd"]["anims"]:
+            if a[3] >= 0:
+                add(a[3], case["nows"])
+    out = ctx.model([[3, sp, True, 1, nows] for sp, nows in cases])
+    late_early = 0
+    for (sp, nows), m in zip(cases, out):
+        want = ideal_due(nows, sp)
+        got = [bool(x) for x in m[1]] if m and m[0] == 0 else None
+        if got != want:
+            ctx.disagree("oracle schedule (ideal_due) vs the specification schedule due_flags of the model", {"speed": sp, "nows": nows}, got, want)
+        if sp > 0 and any(b - a > 2 * sp and c_ - b < sp for a, b, c_ in zip(nows, nows[1:], nows[2:])):
+            late_early += 1
+    stats["schedules_checked_against_due_flags"] = len(cases)
+    stats["schedules_with_a_late_pass_followed_by_an_early_one"] = late_early
+
+
 def replay_finding(f):
     """-> True iff the listed witness still fails on the real code"""
     w = f["witness"]
@@ -862,13 +1008,17 @@ def replay(data):
     col = _Collector()
     if isinstance(case, dict) and "lcd" in case:
         d, nows = case["lcd"], case["nows"]
-        src = device_script([d])
+        rts = case.get("runtime_speed") or False
+        src = device_script([d], runtime_speed=rts, pre_lines=BUSY_PRE if case.get("busy") else None,
+                            loop_lines=BUSY_LOOP if case.get("busy") else None)
+        print("replay: script\n" + src)
         t = fw.transpile_many([src])[0]
         if not t["ok"]:
             print("REPRODUCED: the transpiler rejects the script", t)
             return 1
         incs = [nows[0]] + [b - a for a, b in zip(nows, nows[1:])]
-        o = fw.run_sketches([{"cpp": t["cpp"], "input": "clock0 0\npass " + " ".join(map(str, incs)) + "\n", "loops": len(nows),
+        inp = "clock0 0\npass " + " ".join(map(str, incs)) + "\n" + (f"ar 14 {rts}\nar 15 0\n" if rts else "")
+        o = fw.run_sketches([{"cpp": t["cpp"], "input": inp, "loops": len(nows),
                               "env": {"REDU_LCD_DUMP": "1", "REDU_NO_READ_EVENTS": "1"}, "run_timeout": 120}])[0]
         if not o["compiled"] or o["rc"] != 0:
             print("REPRODUCED: the emitted sketch does not compile / crashed", o["compile_log"][-600:], o["stderr"][-300:])
@@ -922,6 +1072,7 @@ def run(ctx: C.Ctx):
     hcases, h_nt = run_host(ctx, stats)
     dindex, d_nt = run_device(ctx, stats)
     run_injection(ctx, stats)
+    run_schedule_spec(ctx, stats, hcases, dindex)
     for f in ctx.findings:
         if f.get("kind") == "fixed":
             continue
@@ -933,10 +1084,15 @@ def run(ctx: C.Ctx):
     ctx.coverage.update({
         "evaluations": len(hcases) + len(dindex) + stats.get("injection_shapes", 0),
         "distinct_nontrivial": h_nt + d_nt,
-        "rule": "host: (4 styles x cols in {1,2,3,8,16,20,40} x len in {0,1,cols-1,cols,cols+1,2cols} x loop x speed in {0,1,100} x tick schedule in {ontime,early,late,equal}) "
-                "(quick: two speed/schedule picks per cell, thorough: all, plus every other width 1..40 with two picks per cell), plus seeded random single and multi-animation cases with invalid styles/rows; "
-                "device: the same grid, one LCD object per case batched into sketches that share a scripted millis() schedule, plus multi-animation / two-display / run-time-argument sketches; "
-                "tick histories are long enough to contain more than len+2*cols+2 due ticks (non-looping). Non-trivial = at least one frame was drawn by a tick; distinct by (geometry, animations, schedule prefix).",
+        "rule": "host: (4 styles x cols in {1,2,3,8,16,20,40} x len in {0,1,cols-1,cols,cols+1,2cols} x loop x speed in {0,1,100} x tick schedule in {ontime,early,late,equal,burst}) "
+                "(quick: two speed/schedule picks per cell rotating over all 15 pairs, thorough: all, plus every other width 1..40 with two picks per cell), plus seeded random single-animation cases "
+                "(speeds -5..70000, mixed and burst schedules) and multi-animation cases with invalid styles/rows; "
+                "device: the same grid, one LCD object per case batched into sketches that share a scripted millis() schedule (first pass at 1, 7, 1000 or just below 2^31 ms), plus speeds 7/1000/70000 "
+                "(thorough also 2/40000 and the in-between widths 4..39), plus multi-animation / several-display / run-time-argument sketches on mixed and burst schedules, half of them with a main loop doing other work; "
+                "schedule 'burst' = late passes (2..5 periods) each followed by several quick passes (0, 1, period/4 ... apart) and then one exactly on time; 'mixed' draws gaps from {0,1,p-1,p,p+1,2p,p/2,3p+1,7p+3}; "
+                "tick histories are long enough to contain more than len+2*cols+2 due ticks (non-looping). The per-animation relations (rate limit over all pairs of steps, no due pass skipped, no frame after a skipped due pass, "
+                "termination bound, one frame per step) are evaluated for every animation that has its row to itself (device) / for every animation (host). "
+                "Non-trivial = at least one frame was drawn by a tick; distinct by (geometry, animations, schedule prefix).",
         "samples": [hcases[0], hcases[len(hcases) // 2], dindex[0][0] if dindex else None],
         "distribution": stats,
         "guard": "host: cols, rows >= 1, tick times positive and non-decreasing; device: additionally 0 <= row < rows, text without control characters, quotes or backslashes (non-ASCII text = its UTF-8 bytes; speed_ms may be negative: cast to unsigned long), "
